@@ -181,8 +181,64 @@ D2 = [
     _doc(''),
 ]
 
+
+# pool 2: element and attribute wildcards of every processContents, documents with names in namespaces that are
+# loaded on demand (XLink, XHTML: bundled locations), loaded at build time (xml:, xsi:) or not loadable (urn:o)
+XLINK = 'http://www.w3.org/1999/xlink'
+
+
+def _w(name, pce, pca):
+    return (f'<xs:element name="{name}"><xs:complexType><xs:sequence><xs:any namespace="##other" processContents="{pce}" '
+            f'minOccurs="0" maxOccurs="unbounded"/></xs:sequence><xs:anyAttribute namespace="##other" '
+            f'processContents="{pca}"/></xs:complexType></xs:element>')
+
+
+S3 = f'''<xs:schema xmlns:xs="{XS}" targetNamespace="urn:t" xmlns:t="urn:t" elementFormDefault="qualified">
+<xs:element name="root"><xs:complexType><xs:choice minOccurs="0" maxOccurs="unbounded">
+  {_w("eL", "lax", "lax")}{_w("eS", "strict", "strict")}{_w("eK", "skip", "skip")}{_w("mix", "lax", "strict")}
+  <xs:element name="it" type="t:Base"/>
+  <xs:element name="anyT"/>
+</xs:choice><xs:anyAttribute namespace="##other" processContents="lax"/></xs:complexType>
+  <xs:unique name="u"><xs:selector xpath="t:it"/><xs:field xpath="@n"/></xs:unique></xs:element>
+<xs:complexType name="Base"><xs:attribute name="n" type="xs:integer"/></xs:complexType>
+<xs:complexType name="Ext"><xs:complexContent><xs:extension base="t:Base"><xs:attribute name="m" type="xs:integer"/>
+  </xs:extension></xs:complexContent></xs:complexType>
+</xs:schema>'''
+
+
+def _t(body, attrs=''):
+    return (f'<t:root xmlns:t="urn:t" xmlns:xsi="{XSI}" xmlns:xl="{XLINK}" xmlns:h="{XHTML}" xmlns:o="urn:o"'
+            f'{" " + attrs if attrs else ""}>{body}</t:root>')
+
+
+D3 = [
+    _t(''),
+    _t('', 'xl:type="simple"'),                                   # lax attribute wildcard, valid for the XLink declaration
+    _t('', 'xl:type="bogus"'),                                    # ... invalid
+    _t('<t:eL xl:type="bogus" xl:href="u"/>'),
+    _t('<t:eS xl:type="simple"/>'),                               # strict attribute wildcard
+    _t('<t:eS xl:type="bogus"/>'),
+    _t('<t:eK xl:type="bogus"/>'),                                # skip: never looked up
+    _t('<t:eL><xl:title>a title</xl:title></t:eL>'),              # lax element wildcard, XLink element
+    _t('<t:eS><h:p>t</h:p></t:eS>'),                              # strict element wildcard, XHTML
+    _t('<t:eS><h:br>text</h:br></t:eS>'),                         # ... invalid for the XHTML declaration
+    _t('<t:eK><h:p bogus="1"/></t:eK>'),                          # skip
+    _t('<t:eL xml:lang="en" xml:space="bogus"/>'),                # namespace loaded at build time
+    _t('<t:eS o:a="1"/><t:eL o:a="1"><o:any/></t:eL>'),           # namespace nobody can load
+    _t('<t:eL xsi:bogus="1"/>'),
+    _t('<t:eL><h:p>t</h:p></t:eL><t:it xsi:type="t:Ext" m="1" n="1"/>'),    # a load, then an xsi:type in the same call
+    _t('<t:it xsi:type="t:Ext" m="x" n="1"/><t:it n="1"/>'),
+    f'<h:p xmlns:h="{XHTML}">t</h:p>',                            # the ROOT is in a loadable namespace
+    f'<xl:title xmlns:xl="{XLINK}">t</xl:title>',
+    _t('<t:mix xl:type="bogus"><o:any/></t:mix>'),
+    _t('<t:anyT xl:type="bogus"><h:p>t</h:p></t:anyT>'),
+    _t('<t:eL xl:nosuch="1"/>'),                                  # loadable namespace, undeclared attribute: lax
+    _t('<t:eS xl:nosuch="1"/>'),                                  # ... strict
+]
+
 POOLS = [('xsi+identity+wildcard+substitution+fixed+ID (1.0)', '1.0', S1, D1),
-         ('assert+fixed+wildcard+keyref+xsi (1.1)', '1.1', S2, D2)]
+         ('assert+fixed+wildcard+keyref+xsi (1.1)', '1.1', S2, D2),
+         ('wildcards lax/strict/skip x namespaces loaded on demand / at build / never (1.0)', '1.0', S3, D3)]
 OPS = ['is_valid', 'iter_errors', 'validate', 'decode', 'decode_strict', 'to_objects', 'encode', 'stop', 'lazy',
        'kbint', 'exv', 'abandon']
 ABORT_OPS = ('stop', 'kbint', 'exv', 'abandon', 'tabort')
@@ -242,6 +298,7 @@ class Probe:
         self.root_ns: Optional[str] = None
         self.root_seen: Optional[bool] = None
         self.schema = None
+        self.nsmap: dict = {'xsi': XSI}
 
     # ---- namespace lookups
     def attach(self, schema, xml: Optional[str]) -> None:
@@ -263,8 +320,9 @@ class Probe:
                 return res
             loader.__dict__['load_namespace'] = load_namespace
         holder['probe'] = self
+        self.nsmap = {'xsi': XSI}
         if xml is not None:
-            m = re.match(r'\s*<(?:(\w+):)?\w+', xml)
+            self.nsmap.update(dict(re.findall(r'xmlns:(\w+)="([^"]*)"', xml)))
             try:
                 tag = ET.fromstring(xml).tag
                 self.root_ns = tag[1:].split('}')[0] if tag[:1] == '{' else ''
@@ -474,6 +532,10 @@ class Pool:
         self.widen: dict = {}
         self.complex: set = set()
         self.dummies: dict = {}
+        self.ns_names: list = sorted(self.clean.maps.namespaces)
+        self.ns_base = set(self.clean.maps.namespaces)
+        self.fresh_info: dict = {}
+        self.last_attr: tuple = ([], [])
 
     @staticmethod
     def index(schema) -> dict:
@@ -538,19 +600,39 @@ class Pool:
             self.widen[(c, d, ti)] = sorted(set(got))
         return self.widen[(c, d, ti)]
 
-    def steps_of(self, schema, idx: dict, probe: Probe, lazy: bool) -> tuple[list, list, list]:
-        """model steps of a call from its own events; returns (steps, real observations at element ends,
-        index in `steps` of the xsi step of every started element or None)"""
+    def ns(self, namespace: str) -> int:
+        if namespace not in self.ns_names:
+            self.ns_names.append(namespace)
+        return self.ns_names.index(namespace)
+
+    def steps_of(self, schema, idx: dict, probe: Probe, lazy: bool) -> tuple[list, list, Optional[bool]]:
+        """model steps of a call from its own events; returns (steps, real observations in order: root lookup,
+        namespace lookups of wildcards, counters/collecting constraints at element ends; did the attribute
+        wildcards look up exactly the namespaces the port of the attribute loop expects — None if the call was
+        aborted)"""
         from xmlschema.validators.identities import XsdKeyref, XsdIdentity
         steps: list = []
         real: list = []
+        if probe.root_ns is not None:
+            steps.append(['r', self.ns(probe.root_ns)])
+            real.append({'seen': bool(probe.root_seen)})
+        started: list = []
+        expected: dict = {}
+        real_attr: list = []
 
         def snap(s):
             return [[idx.get(id(i), -1), en] for i, en in s]
 
         for ev in probe.events:
-            if ev[0] == 's':
+            if ev[0] == 'w':
+                _, namespace, is_attr, pc, res, rebuilt = ev
+                steps.append(['w', bool(is_attr), pc, self.ns(namespace)])
+                real.append({'ns': [bool(res), bool(rebuilt)]})
+                if is_attr:
+                    real_attr.append((namespace, pc))
+            elif ev[0] == 's':
                 _, elem, xe, before = ev
+                started.append(id(elem))
                 d = self.decl(idx, xe)
                 ids = [idx[id(i)] for i in xe.identities if id(i) in idx]
                 if lazy and before is not None:
@@ -559,7 +641,7 @@ class Pool:
                 tname = elem.attrib.get('{%s}type' % XSI)
                 if tname is not None and xe.schema.meta_schema is not None:
                     cxe = self.ccomps[idx[id(xe)]] if id(xe) in idx and idx[id(xe)] < len(self.ccomps) else xe
-                    t = self.instance_type(cxe, tname)
+                    t = self.instance_type(cxe, tname, probe.nsmap)
                     if t is not None and id(t) in self.cidx:
                         ti = self.cidx[id(t)]
                         if t.has_complex_content():
@@ -569,7 +651,8 @@ class Pool:
                                     self.widen_of(idx[id(c)], d, ti, xe.name)
                         steps.append(['x', d, ti, None])
             else:
-                _, elem, xe, ctxs, gate, _t = ev
+                _, elem, xe, ctxs, gate, _t, exp = ev
+                expected[id(elem)] = exp
                 d = self.decl(idx, xe)
                 if lazy and ctxs is not None:
                     steps.append(['s', snap(ctxs)])
@@ -585,12 +668,16 @@ class Pool:
                             refer = idx[id(i.refer)]
                         lv.append([idx[id(i)], refer])
                     steps.append(['l', lv])
-        return steps, real
+        attr_ok: Optional[bool] = None
+        if started and all(k in expected and expected[k] is not None for k in started):
+            want_attr = [x for k in started for x in expected[k]]
+            attr_ok = want_attr == real_attr
+            self.last_attr = (want_attr, real_attr)
+        return steps, real, attr_ok
 
-    def instance_type(self, xe, tname: str):
+    def instance_type(self, xe, tname: str, nsmap: dict):
         """the type a usable xsi:type selects (None: unknown, not derived, or blocked) — evaluated on the clean
         schema object so that the caches of the object under observation are not touched"""
-        nsmap = {'xsi': XSI}
         try:
             t = self.clean.maps.get_instance_type(tname.strip(), xe.type, nsmap)
         except (KeyError, TypeError):
@@ -602,14 +689,20 @@ class Pool:
             return None
         return t
 
-    def fresh(self, op: str, di: int, stop_at: int, xml: Optional[str] = None) -> Any:
-        key = (op, di, stop_at if op in ABORT_OPS else 0)
+    def fresh(self, op: str, di: int, stop_at: int, xml: Optional[str] = None, override: bool = False) -> Any:
+        """result of the call on a schema object that validated nothing; `fresh_info[key]` = what its probes saw"""
+        key = (op, di, stop_at if op in ABORT_OPS else 0, xml if override else None)
         if key not in self.fresh_cache:
             schema = make_schema(self.version, self.xsd)
             src = None
             if op == 'encode':
-                src = self.encode_source(di)
-            self.fresh_cache[key] = perform(schema, op, xml if xml is not None else self.docs[di], stop_at, None, src)
+                src = self.encode_source(di) if not override else schema.decode(xml, validation='lax')[0]
+            probe = Probe(op, stop_at)
+            fidx = self.index(schema)
+            self.fresh_cache[key] = perform(schema, op, xml if xml is not None else self.docs[di], stop_at, probe, src)
+            _steps, real, attr_ok = self.steps_of(schema, fidx, probe, op in ('lazy', 'abandon'))
+            self.fresh_info[key] = (real, attr_ok, self.last_attr, _steps)
+        self.last_fresh_key = key
         return self.fresh_cache[key]
 
     def encode_source(self, di: int) -> Any:
@@ -623,7 +716,16 @@ class Pool:
     def sch_json(self) -> dict:
         return {'complex': sorted(self.complex),
                 'wtab': [[c, d, t, w] for (c, d, t), w in sorted(self.widen.items())],
-                'base': sorted([c, d] for c, d in self.base['sel'])}
+                'base': sorted([c, d] for c, d in self.base['sel']),
+                'nsBase': [i for i, n in enumerate(self.ns_names) if n in self.ns_base],
+                'loadable': [i for i, n in enumerate(self.ns_names)
+                             if n not in self.ns_base and self.has_location(n)]}
+
+    def has_location(self, namespace: str) -> bool:
+        try:
+            return bool(list(self.clean.maps.loader.get_locations(namespace)))
+        except Exception:
+            return False
 
 
 # ------------------------------------------------------------------------------------------------
@@ -636,6 +738,7 @@ class PyModel:
         self.pairs: set = set()
         self.elems: set = set()
         self.sel: set = set()
+        self.loaded: set = set()
 
     def xsi_writes(self, ctx: list, d: int, t: int) -> list:
         ws: list = []
@@ -666,8 +769,9 @@ class PyModel:
         """observations [(ctx, gate)] of a call"""
         ctx: list = []
         obs = []
-        base = self.pool.base['sel']
         self.ctx_at_x: list = []
+        stale = False
+        sj = self.pool.sch_json()
         for s in steps:
             if s[0] == 'e':
                 for c in s[1]:
@@ -680,11 +784,25 @@ class PyModel:
                 self.writes_at_x = ws = self.xsi_writes(ctx, s[1], s[2])
                 if s[3] is not None:
                     ws = ws[:s[3]]
-                for w in ws:
-                    self.apply(w)
+                if not stale:
+                    for w in ws:
+                        self.apply(w)
             elif s[0] == 'c':
-                obs.append({'ctx': [list(p) for p in ctx],
-                            'gate': sorted({c for c, en in ctx if en and ((c, s[1]) in base or (c, s[1]) in self.sel)})})
+                obs.append({'ctx': [list(p) for p in ctx], 'gate': sorted({c for c, en in ctx if en})})
+            elif s[0] == 'r':
+                obs.append({'seen': s[1] in sj['nsBase'] or s[1] in self.loaded})
+            elif s[0] == 'w':
+                if s[2] == 'skip':
+                    continue
+                if s[3] in sj['nsBase'] or s[3] in self.loaded:
+                    obs.append({'ns': [True, False]})
+                elif s[3] in sj['loadable']:
+                    self.types, self.pairs, self.elems, self.sel = set(), set(), set(), set()
+                    self.loaded.add(s[3])
+                    stale = True
+                    obs.append({'ns': [True, True]})
+                else:
+                    obs.append({'ns': [False, False]})
             elif s[0] == 'l':
                 for c, refer in s[1]:
                     ctx = [[c, False] if p[0] == c else p for p in ctx]
@@ -697,6 +815,7 @@ class PyModel:
     def copy(self) -> 'PyModel':
         m = PyModel(self.pool)
         m.types, m.pairs, m.elems, m.sel = set(self.types), set(self.pairs), set(self.elems), set(self.sel)
+        m.loaded = set(self.loaded)
         return m
 
 
@@ -704,16 +823,17 @@ class PyModel:
 # findings
 # ------------------------------------------------------------------------------------------------
 def known_match(case: dict, detail: dict) -> Optional[str]:
-    """C10-F3: the result of a call differs from the fresh result AND a namespace has been loaded on demand
-    into the shared schema object by this call or an earlier call of the history (its set of loaded namespaces
-    is larger than that of a schema object that validated nothing).
-    C10-F2: the result differs AND the Lean model of the code as it is predicts, for the steps of this call
-    after this history, a `collect` observation that differs from the fresh one, and the driver's evaluation of
-    the guard `selfSufficient` on those steps is false."""
-    if detail.get('namespaces_loaded'):
+    """C10-F3: the result of a call differs from the fresh result AND
+      * the Lean model of the code as it is predicts, for the steps of this call after this history, an
+        observation that differs from the fresh one — a wildcard lookup that rebuilds the components in the fresh
+        run and not in the used one (or the reverse), or a root lookup that finds the namespace loaded — AND
+      * the namespace lookups of BOTH real runs (the call on the used object and the call on the fresh object)
+        are the ones the model describes: every `load_namespace` call returned / rebuilt what the model says,
+        the root was seen loaded as the model says, and the attribute wildcards looked up exactly the namespaces
+        that the port of the attribute loop expects (so a lookup that is skipped, or that consults the loaded
+        set without loading, is NOT explained by this finding)."""
+    if detail.get('model_predicts_difference') and detail.get('ns_lookups_as_modelled'):
         return 'C10-F3'
-    if detail.get('model_predicts_difference') and detail.get('self_sufficient') is False:
-        return 'C10-F2'
     return None
 
 
@@ -783,7 +903,8 @@ def _run_history(ctx: Ctx, pi: int, pool: Pool, hist: list, drv: Optional[Driver
                  docs: Optional[list]) -> None:
     """hist: list of [op, doc index, stop_at]; `docs` overrides the pool's documents (finding families)"""
     case: dict = {'pool': pi, 'history': hist}
-    if docs is not None:
+    override = docs is not None
+    if override:
         case['docs'] = docs
     docs = docs if docs is not None else pool.docs
     shared = make_schema(pool.version, pool.xsd)
@@ -799,15 +920,15 @@ def _run_history(ctx: Ctx, pi: int, pool: Pool, hist: list, drv: Optional[Driver
     fp = lib_c10.fingerprint(shared, namer) if deep else None
     lazy_keys: dict = {}
     py = PyModel(pool)
+    nloaded = 0
     for step_no, (op, di, stop_at) in enumerate(hist):
         probe = Probe(op, stop_at)
-        src = pool.encode_source(di) if op == 'encode' else None
+        src = pool.encode_source(di) if op == 'encode' and not override else None
+        if op == 'encode' and override:
+            src = make_schema(pool.version, pool.xsd).decode(docs[di], validation='lax')[0]
         got = perform(shared, op, docs[di], stop_at, probe, src)
-        want = pool.fresh(op, di, stop_at, docs[di]) if case.get('docs') is None else \
-            perform(make_schema(pool.version, pool.xsd), op, docs[di], stop_at, None, src)
-        loaded = sorted(set(shared.maps.namespaces) - ns0)
-        if loaded:
-            idx = pool.index(shared)            # the components were rebuilt (finding C10-F3)
+        want = pool.fresh(op, di, stop_at, docs[di], override)
+        fresh_real, fresh_attr_ok, fresh_attr, fresh_steps = pool.fresh_info[pool.last_fresh_key]
         raised = got[0] in ('raised', 'aborted')
         invalid = raised or (got[0] == 'verdict' and not got[1]) or (got[0] in ('errors', 'errors-abandoned') and got[1]) or \
             (got[0] in ('data', 'objects', 'xml') and len(got) > 2 and got[2])
@@ -817,7 +938,14 @@ def _run_history(ctx: Ctx, pi: int, pool: Pool, hist: list, drv: Optional[Driver
         ctx.count('op:' + op)
         ctx.count('result:' + got[0] + (':invalid' if invalid and not raised else ''))
         lazy = op in ('lazy', 'abandon')
-        steps, real = pool.steps_of(shared, idx, probe, lazy)
+        steps, real, attr_ok = pool.steps_of(shared, idx, probe, lazy)       # `idx`: the components this call ran on
+        used_attr = pool.last_attr
+        loaded = sorted(pool.ns(n) for n in set(shared.maps.namespaces) - ns0)
+        if len(loaded) != nloaded:
+            idx = pool.index(shared)            # the components were re-created by a namespace load
+            nloaded = len(loaded)
+            deep = False                        # the names of the fingerprint walk are gone with the old objects
+            ctx.count('calls-that-loaded-a-namespace')
         if op == 'tabort' and steps and probe.tabort_log and got[0] == 'aborted':
             # the call was aborted just before the last logged statement of the xsi block of the last started element
             budget = tabort_budget(py, steps, probe.tabort_log)
@@ -828,11 +956,25 @@ def _run_history(ctx: Ctx, pi: int, pool: Pool, hist: list, drv: Optional[Driver
                         break
                 ctx.count('abort-inside-xsi-block:budget=%d' % budget)
         obs = pool.observe(shared, idx)
+        obs['loaded'] = loaded
         differs = got != want
         if differs:
             ctx.count('differs-from-fresh')
+        for w in steps:
+            if w[0] == 'w':
+                ctx.count('lookup:%s-wildcard %s' % ('attribute' if w[1] else 'element', w[2]))
+        # the attribute wildcards looked up what the port of the attribute loop expects
+        if attr_ok is not None:
+            ctx.traces += 1
+            if not attr_ok:
+                ctx.mismatch('namespace lookups of the attribute wildcards in call %d (%s): the attributes that reach '
+                             'load_namespace are not the ones the port of XsdAttributeGroup/XsdAnyAttribute.raw_decode '
+                             'expects' % (step_no, op), case, used_attr[1], used_attr[0])
+        if fresh_attr_ok is False:
+            ctx.mismatch('namespace lookups of the attribute wildcards in the FRESH run of call %d (%s)' % (step_no, op),
+                         case, fresh_attr[1], fresh_attr[0])
         # fingerprint: everything else that changed
-        if deep and not loaded:
+        if deep:
             fp2 = lib_c10.fingerprint(shared, namer)
             dd = lib_c10.diff(fp, fp2)
             kinds, bad = classify_diff(dd)
@@ -852,64 +994,81 @@ def _run_history(ctx: Ctx, pi: int, pool: Pool, hist: list, drv: Optional[Driver
             fp = fp2
         else:
             present = None
-        py_obs = py.run(steps)
         fresh_py = PyModel(pool).run(steps)
+        py_obs = py.run(steps)
         if drv is not None:
             reqs.append({'sch': None, 'hist': [list(h) for h in model_hist], 'doc': steps})
-            meta.append((step_no, op, di, differs, got, want, obs, real, loaded, present))
+            meta.append((step_no, op, di, differs, got, want, obs, real, present, fresh_real,
+                         attr_ok is not False and fresh_attr_ok is not False, fresh_steps if differs else None))
         else:
             cut = len(real)
-            if py_obs[:cut] != real and not loaded:
+            ok = py_obs[:cut] == real
+            if not ok:
                 ctx.mismatch('observations of call %d (%s) [python mirror]' % (step_no, op), case, real, py_obs[:cut])
             if differs:
-                judge(ctx, case, step_no, got, want, py_obs != fresh_py, None, loaded)
+                judge(ctx, case, step_no, got, want, py_obs != fresh_py,
+                      ok and PyModel(pool).run(fresh_steps)[:len(fresh_real)] == fresh_real and attr_ok is not False
+                      and fresh_attr_ok is not False)
         model_hist.append(steps)
-    ctx.case(case, (uses_xsi and seen_bad) or bad_before_good, tag=tag)
+    ctx.case(case, (uses_xsi and seen_bad) or bad_before_good or nloaded > 0, tag=tag)
     ctx.count('len:%d' % len(hist))
     if drv is not None:
         sj = pool.sch_json()
         for r in reqs:
             r['sch'] = sj
         reqs.append({'sch': sj, 'hist': [list(h) for h in model_hist], 'doc': []})
+        # the fresh runs of the calls that differ, on their own steps (their walk may differ from the used one)
+        extra = {m[0]: len(reqs) + k for k, m in enumerate([m for m in meta if m[-1] is not None])}
+        reqs.extend({'sch': sj, 'hist': [], 'doc': m[-1]} for m in meta if m[-1] is not None)
         answers = drv.query(reqs)
-        final = answers[-1]
-        for (step_no, op, di, differs, got, want, obs, real, loaded, present), ans in zip(meta, answers):
+        final = answers[len(meta)]
+        for (step_no, op, di, differs, got, want, obs, real, present, fresh_real, attr_fine, fsteps), ans in zip(meta, answers):
             ctx.traces += 1
             if 'err' in ans or 'error' in ans:
                 ctx.mismatch('driver error ' + str(ans.get('err') or ans.get('error')), case, None, ans)
                 continue
-            if loaded:
-                ctx.count('namespace-loaded-on-demand (outside the model)')
-            else:
-                # writes: residue after this call = trace[step_no + 1] of the final answer
-                tr = final['trace'][step_no + 1]
-                bs = pool.base['sel']
-                mres = {'types': [tuple(x) for x in tr['types'] if x[0] < DUMMY],
-                        'pairs': [tuple(x) for x in tr['pairs'] if x[0] < DUMMY],
-                        'elems': sorted(set(tuple(x) for x in tr['elems']) - pool.base['elems']),
-                        'sel': sorted(set(tuple(x) for x in tr['sel']) - bs)}
-                if mres != obs:
-                    ctx.mismatch('residue after call %d (%s)' % (step_no, op), case, obs, mres)
-                if present is not None:
-                    ctx.traces += 1
-                    if tr['memo'] != present:
-                        ctx.mismatch('write-once attributes after call %d (%s)' % (step_no, op), case, present, tr['memo'])
-                # reads: what the call saw
-                mobs = [o for o in ans['obs'] if 'ctx' in o]
+            # writes: residue after this call = trace[step_no + 1] of the final answer
+            tr = final['trace'][step_no + 1]
+            bs = pool.base['sel']
+            mres = {'types': [tuple(x) for x in tr['types'] if x[0] < DUMMY],
+                    'pairs': [tuple(x) for x in tr['pairs'] if x[0] < DUMMY],
+                    'elems': sorted(set(tuple(x) for x in tr['elems']) - pool.base['elems']),
+                    'sel': sorted(set(tuple(x) for x in tr['sel']) - bs),
+                    'loaded': tr['loaded']}
+            if mres != obs:
+                ctx.mismatch('residue after call %d (%s)' % (step_no, op), case, obs, mres)
+            if present is not None:
                 ctx.traces += 1
-                if mobs[:len(real)] != real or (op not in ABORT_OPS and got[0] != 'raised' and len(mobs) != len(real)):
-                    ctx.mismatch('observations (counters, collecting constraints) of call %d (%s)' % (step_no, op), case,
-                                 real[:40], mobs[:40])
-                ctx.count('element-end observations compared', len(real))
+                if tr['memo'] != present:
+                    ctx.mismatch('write-once attributes after call %d (%s)' % (step_no, op), case, present, tr['memo'])
+            # reads: what the call saw (root lookup, wildcard lookups, counters and collecting constraints)
+            mobs = [o for o in ans['obs'] if 'memo' not in o and 'scratch' not in o]
+            mfresh = [o for o in ans['fresh'] if 'memo' not in o and 'scratch' not in o]
+            ctx.traces += 1
+            reads_ok = mobs[:len(real)] == real and not (op not in ABORT_OPS and got[0] != 'raised' and len(mobs) != len(real))
+            if not reads_ok:
+                ctx.mismatch('observations (namespace lookups, counters, collecting constraints) of call %d (%s)'
+                             % (step_no, op), case, real[:40], mobs[:40])
+            if fsteps is not None:
+                mfresh = [o for o in answers[extra[step_no]]['obs'] if 'memo' not in o and 'scratch' not in o]
+                fresh_ok = mfresh[:len(fresh_real)] == fresh_real
+                if not fresh_ok:
+                    ctx.count('fresh-run-lookups-not-as-modelled')
+            else:
+                fresh_ok = True
+            ctx.count('observations compared', len(real))
+            ctx.count('namespace-lookup observations compared', sum(1 for o in real if 'ns' in o or 'seen' in o))
             pm = ans['obs'] != ans['fresh']
             if pm:
                 ctx.count('model-predicts-difference')
-            if not ans['self_sufficient']:
-                ctx.count('call-not-self-sufficient')
+            if not ans['ns_quiet']:
+                ctx.count('call-not-namespace-quiet')
             if differs:
-                judge(ctx, case, step_no, got, want, pm, ans['self_sufficient'], loaded)
+                judge(ctx, case, step_no, got, want, pm, reads_ok and fresh_ok and attr_fine)
             elif pm:
                 ctx.count('model-difference-not-observable')
+            elif not ans['ns_quiet']:
+                pass
 
 
 def tabort_budget(py: PyModel, steps: list, log: list) -> Optional[int]:
@@ -935,10 +1094,9 @@ def tabort_budget(py: PyModel, steps: list, log: list) -> Optional[int]:
     return k
 
 
-def judge(ctx: Ctx, case: dict, step_no: int, got: Any, want: Any, pm: Optional[bool], ss: Optional[bool],
-          loaded: list) -> None:
+def judge(ctx: Ctx, case: dict, step_no: int, got: Any, want: Any, pm: Optional[bool], lookups_ok: bool) -> None:
     detail = {'call': step_no, 'shared_schema_result': got, 'fresh_schema_result': want,
-              'model_predicts_difference': pm, 'self_sufficient': ss, 'namespaces_loaded': loaded}
+              'model_predicts_difference': pm, 'ns_lookups_as_modelled': lookups_ok}
     fid = known_match(case, detail)
     if fid:
         ctx.known_hit(fid, case, detail)
@@ -961,6 +1119,7 @@ def random_history(rng, pool: Pool, maxlen: int) -> list:
 WITNESS_F1 = (0, [['iter_errors', 0, 1], ['iter_errors', 2, 1]])     # C10-F1 (fixed): A then B must now agree
 WITNESS_F2 = (0, [['iter_errors', 1, 1], ['iter_errors', 24, 1], ['is_valid', 25, 1]])
 WITNESS_F3 = [[['iter_errors', 0, 1], ['iter_errors', 0, 1]], [['is_valid', 1, 1], ['iter_errors', 2, 1]]]
+WITNESS_F3_POOL2 = [[['iter_errors', 14, 1], ['iter_errors', 14, 1]], [['is_valid', 8, 1], ['iter_errors', 16, 1]]]
 
 
 def run(ctx: Ctx, driver_ok: bool) -> None:
@@ -974,10 +1133,18 @@ def run(ctx: Ctx, driver_ok: bool) -> None:
             run_history(ctx, c['pool'], pools[c['pool']], c['history'], drv, 'corpus', docs=c.get('docs'))
     run_history(ctx, WITNESS_F1[0], pools[WITNESS_F1[0]], WITNESS_F1[1], drv, 'witness', deep=True)
     run_history(ctx, WITNESS_F2[0], pools[WITNESS_F2[0]], WITNESS_F2[1], drv, 'witness', deep=True)
-    if not ctx.known_hits.get('C10-F2'):
-        ctx.count('witness-C10-F2-no-longer-differs')
     for h in WITNESS_F3:
         run_history(ctx, 0, pools[0], h, drv, 'witness-F3', docs=F3_DOCS)
+    for h in WITNESS_F3_POOL2:
+        run_history(ctx, 2, pools[2], h, drv, 'witness-F3')
+    # namespaces loaded on demand: every ordered pair of the documents of pool 2 (the operation of the first call
+    # rotates), then the second document twice
+    ops2 = ('iter_errors', 'validate', 'decode', 'is_valid', 'to_objects', 'lazy')
+    nd = len(pools[2].docs)
+    for d1 in range(nd):
+        for d2 in range(nd):
+            op1 = ops2[(d1 + d2 + ctx.seed) % (4 if ctx.quick() else 6)]
+            run_history(ctx, 2, pools[2], [[op1, d1, 2], ['iter_errors', d2, 1], ['decode', d2, 1]], drv, 'ns-pairs')
     # calls aborted between two statements of the xsi:type block (KeyboardInterrupt from a trace function)
     for pi, di, follow in ((0, 0, 2), (0, 6, 0), (0, 17, 6), (0, 16, 2), (1, 6, 4)):
         for nth in range(1, ctx.pick(5, 9)):
@@ -986,7 +1153,7 @@ def run(ctx: Ctx, driver_ok: bool) -> None:
     # exhaustive pairs: every (first call) x (second call)
     first_ops = ('iter_errors', 'validate', 'stop', 'exv') if ctx.quick() else \
         ('iter_errors', 'validate', 'stop', 'exv', 'kbint', 'lazy', 'abandon', 'decode_strict')
-    for pi, pool in enumerate(pools):
+    for pi, pool in enumerate(pools[:2]):
         for d1 in range(len(pool.docs)):
             for d2 in range(len(pool.docs)):
                 for k, op1 in enumerate(first_ops):
